@@ -408,7 +408,7 @@ def run_property(pid, tier, seed, jobs, only=None, write_evidence=True):
     t0 = time.time()
     clean_old_builds()
     tierconf = P.get("tiers", {}).get(tier, {})
-    harness_timeout = tierconf.get("harness_timeout_s", 300 if tier == "quick" else 3600)
+    harness_timeout = tierconf.get("harness_timeout_s", 300 if tier == "quick" else 1800)
     mem_gb = tierconf.get("mem_gb", 24 if tier == "quick" else 40)
     jobs = min(jobs, tierconf.get("jobs", jobs))
     num = pid[1:]
